@@ -94,6 +94,23 @@ func c14Child(args []string) int {
 	if len(args) > 4 {
 		dress = args[4]
 	}
+	first := 0
+	if len(args) > 5 {
+		first, _ = strconv.Atoi(args[5])
+	}
+	/* write: the first `first` bytes in a write of their own (a short
+	banner, then the bulk), the rest in one. */
+	write := func(f *os.File, b []byte) {
+		if first > 0 && first < len(b) {
+			f.Write(b[:first])
+			b = b[first:]
+			if len(args) > 6 {
+				us, _ := strconv.Atoi(args[6])
+				time.Sleep(time.Duration(us) * time.Microsecond)
+			}
+		}
+		f.Write(b)
+	}
 	if "echo" == args[3] {
 		io.Copy(os.Stdout, os.Stdin)
 	}
@@ -106,9 +123,9 @@ func c14Child(args []string) int {
 	}
 	switch args[1] {
 	case "stdout":
-		os.Stdout.Write(c14Dressed('O', n, dress))
+		write(os.Stdout, c14Dressed('O', n, dress))
 	case "stderr":
-		os.Stderr.Write(c14Dressed('E', n, dress))
+		write(os.Stderr, c14Dressed('E', n, dress))
 	case "both":
 		/* Alternate in 4 KiB pieces; per-stream order is what counts. */
 		o, e := c14Stamp('O', n), c14Stamp('E', n)
@@ -135,6 +152,10 @@ type c14Case struct {
 	the process that runs the shell. */
 	Dress  string `json:"dress,omitempty"`
 	Locale string `json:"locale,omitempty"`
+	/* FirstWrite: the command writes that many bytes first, then the rest
+	in one write (single streams only). */
+	FirstWrite int `json:"first_write,omitempty"`
+	GapUs      int `json:"gap_us_after_first_write,omitempty"`
 }
 
 // childState reports where the child is: "gone", "zombie", "blocked"
@@ -181,7 +202,7 @@ func c14Run(c c14Case) (sig, what string) {
 		k, _ := strconv.Atoi(strings.TrimPrefix(c.Input, "echo:"))
 		input = c14Stamp('I', k)
 	}
-	cmd := exec.Command(self, "worker", "c14child", strconv.Itoa(c.N), c.FD, strconv.Itoa(c.Status), echo, c.Dress)
+	cmd := exec.Command(self, "worker", "c14child", strconv.Itoa(c.N), c.FD, strconv.Itoa(c.Status), echo, c.Dress, strconv.Itoa(c.FirstWrite), strconv.Itoa(c.GapUs))
 	sh, err := simpleshell.NewCmdShell(cmd)
 	if nil != err {
 		return "new-cmdshell", err.Error()
@@ -386,6 +407,18 @@ func c14(r *ev.Result, tier string) {
 			cases = append(cases, c14Case{N: n, FD: fd, ReadR: 0, Input: "open", Status: 3})
 		}
 	}
+	/* A short piece, then at once a long one, on the same descriptor (a
+	banner and the bulk; echo ---; cat big): per-stream order. */
+	for _, n := range []int{4096 + 8, 65536 + 8, 200000} {
+		for _, fd := range []string{"stdout", "stderr"} {
+			for _, fw := range []int{8, 24, 4088} {
+				for _, gap := range []int{0, 300, 1500, 20000} {
+					cases = append(cases, c14Case{N: n, FD: fd, ReadR: 0, Input: "empty", Status: 0, FirstWrite: fw, GapUs: gap})
+					cases = append(cases, c14Case{N: n, FD: fd, ReadR: 0, Input: "open", Status: 3, FirstWrite: fw, GapUs: gap})
+				}
+			}
+		}
+	}
 	/* Large inputs through the child, back to back. */
 	for _, k := range []int{32768, 32776, 300000, 1 << 20} {
 		cases = append(cases, c14Case{N: 8, FD: "stdout", ReadR: 0, Input: "echo:" + strconv.Itoa(k), Status: 0})
@@ -450,6 +483,35 @@ func c14(r *ev.Result, tier string) {
 	r.Sample(4, cases[len(cases)/2])
 	r.Sample(4, cases[len(cases)-1])
 	r.Sample(4, c14Case{N: 65544, FD: "stdout", ReadR: 8, Input: "empty", Status: 0})
+	/* A command that cannot be started: Go says so, and the output stream
+	ends all the same. */
+	for _, path := range []string{"/nonexistent/command", os.DevNull} {
+		sh, err := simpleshell.NewCmdShell(exec.Command(path))
+		r.Evaluations++
+		if nil != err {
+			continue /* Refused at once: nothing was opened. */
+		}
+		sh.SetInput(bytes.NewReader(nil))
+		out := sh.Output()
+		goErr := make(chan error, 1)
+		go func() { goErr <- sh.Go(context.Background()) }()
+		ended := make(chan error, 1)
+		go func() { _, err := io.Copy(io.Discard, out); ended <- err }()
+		rp := c14Case{FD: "none", Input: "command cannot be started: " + path}
+		select {
+		case err := <-goErr:
+			if nil == err {
+				r.Violate(ev.Violation{Signature: "failure-not-reported/unstartable", What: fmt.Sprintf("command %s cannot be started, Go returned nil", path), Kind: "c14go", Replay: rp})
+			}
+		case <-time.After(30 * time.Second):
+			r.Violate(ev.Violation{Signature: "go-never-returns/unstartable", What: fmt.Sprintf("command %s cannot be started, Go did not return within 30 s", path), Kind: "c14go", Replay: rp})
+		}
+		select {
+		case <-ended:
+		case <-time.After(30 * time.Second):
+			r.Violate(ev.Violation{Signature: "output-never-ends/unstartable", What: fmt.Sprintf("command %s cannot be started: Go has returned, the output stream is still open 30 s later", path), Kind: "c14go", Replay: rp})
+		}
+	}
 	/* End to end through simpleshell.Go against a slow HTTPS server. */
 	c14GoSeam(r)
 	r.Assume("kernel pipe semantics and process reaping are trusted; the schedule axis is reduced to one owned choice (how much was read when the child is gone or blocked) plus an optional pause")
